@@ -54,6 +54,8 @@ def gen_case(rng, tier):
             op['expr'] = {'kind': 'arith', 'fact': rng.randrange(len(facts)), 'var': rng.choice([0, 0, 1, 2, 3, 4, 5, 6])}
         else:
             op['expr'] = {'kind': 'path', 'path': rng.choice(STRUCT_PATHS)}
+        if rng.random() < 0.15:
+            op['inner'] = True      # (node tree forms) the context root is the first element child, paths go through '..'
         ops.append(op)
     cfg = {'spec': spec, 'xml': xml, 'facts': facts, 'trees': trees}
     if rng.random() < 0.25:
@@ -131,6 +133,14 @@ def evaluate(text, tree, proxy, via):
     import elementpath
     from elementpath.xpath31 import XPath31Parser
     kw = {'namespaces': NSMAP}
+    inner = via.endswith('+inner')
+    via = via.replace('+inner', '')
+    if inner and not hasattr(tree['root'], 'tag'):
+        # the context root is an inner node of the prebuilt node tree: its first element child
+        kids = [c for c in tree['root'] if isinstance(c, elementpath.ElementNode)]
+        if kids:
+            tree = dict(tree, root=kids[0])
+            text = text.replace('/t:r/', '../')
     if via == 'selector':
         pk = dict(kw)
         if proxy is not None:
@@ -252,10 +262,11 @@ def run_case(case, world):
             last_schema.clear()
         ti = op['tree'] % len(trees)
         form = cfg['trees'][ti]
+        via = op.get('via', 'select') + ('+inner' if op.get('inner') and form.startswith('nodetree') else '')
         tree = trees[ti]
         sk = op.get('schema')
         text = expr_text(op['expr'], cfg['facts']) if (cfg['facts'] or op['expr']['kind'] == 'path') else '/t:r'
-        feats = ['form:' + form, 'schema:' + str(sk), 'via:' + op.get('via', 'select'), 'expr:' + op['expr']['kind']]
+        feats = ['form:' + form, 'schema:' + str(sk), 'via:' + via, 'expr:' + op['expr']['kind']]
         prev = last_schema.get(ti, 'first-use')
         if prev != 'first-use':
             feats.append('tree-reused')
@@ -272,7 +283,7 @@ def run_case(case, world):
             proxy_ = proxies[sk]
             if cfg.get('fresh_proxy') and sk is not None and (built[0] or sk != 'A'):
                 proxy_ = XMLSchemaProxy(schemas[sk])        # another proxy object for the same schema
-            res = evaluate(text, tree, proxy_, op.get('via', 'select'))
+            res = evaluate(text, tree, proxy_, via)
             items = res if isinstance(res, list) else [res]
             outcome = ['ok', canon_nodes(res, tree['base']), [type(x).__name__ for x in items]]
         except Exception as e:
@@ -280,14 +291,14 @@ def run_case(case, world):
             items = []
         world.event(('result', idx, outcome))
         # (i) clean room, same configuration
-        ref = ref_for(form, text, sk, op.get('via', 'select'))
+        ref = ref_for(form, text, sk, via)
         if ref[0] != 'ref-failed' and outcome != ref:
             violate('HISTORY_DEPENDENT', 'differs-from-clean-room:%s' % op['expr']['kind'],
                     '%s on tree %d (%s) with schema %s gave %r, a fresh tree and parser give %r' % (
                         text, ti, form, sk, outcome, ref), feats)
         # (i-b) the entry points agree: a schema-bound Selector (select and iter_select) gives what select() gives
-        if op.get('via', 'select') != 'select' and outcome[0] == 'ok' and ref == outcome:
-            ref2 = ref_for(form, text, sk, 'select')
+        if via.replace('+inner', '') != 'select' and outcome[0] == 'ok' and ref == outcome:
+            ref2 = ref_for(form, text, sk, 'select' + ('+inner' if via.endswith('+inner') else ''))
             if ref2[0] == 'ok':
                 a = outcome[1] if isinstance(outcome[1], list) and (not outcome[1] or isinstance(outcome[1][0], list)) else [outcome[1]]
                 b = ref2[1] if isinstance(ref2[1], list) and (not ref2[1] or isinstance(ref2[1][0], list)) else [ref2[1]]
@@ -298,7 +309,7 @@ def run_case(case, world):
         e = op['expr']
         if sk is not None and e['kind'] == 'data' and outcome[0] == 'error' and ref == outcome and cfg['facts'] \
                 and (built[0] or sk != 'A'):
-            plain = ref_for(form, text, None, op.get('via', 'select'))
+            plain = ref_for(form, text, None, via)
             if plain[0] == 'ok':
                 f = cfg['facts'][e['fact'] % len(cfg['facts'])]
                 violate('TYPED_VALUE', 'typed-value-raises:%s' % f['type'],
@@ -409,7 +420,7 @@ def run_case(case, world):
         # (iii) schema never changes node selection of structural paths
         if e['kind'] == 'path' and sk is not None and (built[0] or sk != 'A'):
             stats['node_list_checks'] += 1
-            plain = ref_for(form, text, None, op.get('via', 'select'))
+            plain = ref_for(form, text, None, via)
             if plain[0] != 'ref-failed' and ref[0] != 'ref-failed' and plain[:2] != ref[:2]:
                 if plain[0] == 'ok' and ref[0] == 'ok' and isinstance(plain[1], list) and isinstance(ref[1], list):
                     missing = [x for x in plain[1] if x not in ref[1]]
